@@ -51,6 +51,10 @@ CHECKS = {
    technique="explicit-state BFS (stateright) whose transition function calls the real Members::{add_member,remove_member,add_rtt}; invariants from a fold-by-newest reference model evaluated in every reachable state",
    text="All reachable states of the member table for 2 actors (3 and 2 identity timestamps), every assignment of address/cluster to identities (64 tables quick, 256 thorough), up/down notifications in any admissible order, RTT samples {1,(40),1000} ms for current and former addresses; presence, identity (ts/address/cluster) and ring/ring0 invariants in every state; shortest counterexample re-derived by FIFO search. 3.4e5 states quick, 3.0e7 thorough, to fix-point.",
    note="Alphabet assumptions: an identity (actor, ts) has one fixed address and cluster; distinct actors never share an address; a 'down' is only emitted for an identity announced 'up' before; an 'up' never carries an identity older than one reported down. foca itself is trusted."),
+ "C20": dict(engine="locks", design="§5 C20 (part A)",
+   technique="stateless DFS over all harness-visible schedules of the real SplitPool (hand-polled requester futures with flag wakers on a current-thread runtime with paused time), deviation-bounded deferral of the dispatcher, every schedule run to completion",
+   text="2-3 (thorough up to 4) concurrent write_priority/normal/low requests; actions: poll a woken requester, cancel a waiting requester (while queued or already granted but not yet polled), release a holder; each action either lets the dispatcher task run afterwards or defers it (<= 1, thorough 2 deferrals). On every schedule: never two WriteConn alive; at every release the next grant goes to a request of the highest priority among those queued at the release; every non-cancelled request is granted (a state with waiters, no holder and nobody woken is a deadlock); the schedule terminates.",
+   note="Only the pool itself (mutual exclusion, priority, liveness of the hand-off) is covered. The agent-wide clause (no combination of write connection, write permit and per-actor bookkeeping locks blocks forever across local writes, remote applies, buffered applies, sync-state generation, maintenance) is NOT covered by an exhaustive check yet; see DESIGN.md §5 C20 part B. Interleavings inside tokio's primitives are not explored."),
 }
 
 NOT_YET = {
@@ -96,6 +100,7 @@ def main():
             {"name": "codec", "path": "harness/src/bin/codec.rs", "serves_properties": ["C09"], "kind_free_text": "exhaustive bounded input enumeration in child processes"},
             {"name": "ingest", "path": "harness/src/bin/ingest.rs", "serves_properties": ["C10"], "kind_free_text": "exhaustive arrival sequences through the real handle_changes loop"},
             {"name": "localtx", "path": "harness/src/bin/localtx.rs", "serves_properties": ["C07"], "kind_free_text": "request-sequence enumeration against a reference model"},
+            {"name": "locks", "path": "harness/src/bin/locks.rs", "serves_properties": ["C20"], "kind_free_text": "stateless DFS over hand-polled SplitPool requesters"},
             {"name": "members", "path": "harness/src/bin/members.rs", "serves_properties": ["C18"], "kind_free_text": "stateright BFS over the real Members methods"},
             {"name": "repl", "path": "harness/src/bin/repl.rs", "serves_properties": ["C01", "C03", "C05", "C06"], "kind_free_text": "replay-from-history explicit-state BFS over 2-3 real nodes"},
             {"name": "pure", "path": "harness/src/bin/pure.rs", "serves_properties": ["C04", "C08"], "kind_free_text": "exhaustive small-scope enumeration of pure functions against set models"},
